@@ -304,10 +304,14 @@ type simWriter struct {
 	transientCall int // this call (1-based) fails once, accepting a prefix; later calls succeed (0: never)
 	failed bool
 	refuseNext bool // the next call accepts nothing and fails (a write deadline that expired, EAGAIN); later calls succeed
+	onCall     func(call int) // invoked at the start of every call, before the bytes are taken over (another connection of the process is active meanwhile)
 }
 
 func (w *simWriter) Write(b []byte) (int, error) {
 	w.calls++
+	if w.onCall != nil {
+		w.onCall(w.calls)
+	}
 	if w.refuseNext {
 		w.refuseNext = false
 		w.failed = true
@@ -628,6 +632,41 @@ func (r *c38run) RunSeq(sched *simrt.Source, keepLog bool) *simrt.Result {
 			}
 			out := readBack(&simReader{data: w.buf.Bytes(), endErr: io.EOF, chunk: seeded()}, len(r.msgs)+2)
 			r.expectPrefix(fmt.Sprintf("stream whose first call of message %d's Write was refused with 0 bytes accepted (retried: %v)", k, retry), out, okMsgs, len(okMsgs), true)
+		}
+		// Two connections in one process: while a stream call of writer A is in
+		// flight (the transport has not taken the bytes over yet), writer B — another
+		// framer, another stream — writes a message. Neither stream may be affected
+		// by the other.
+		for rep := 0; rep < 2 && r.failure == nil; rep++ {
+			wA, wB := &simWriter{failAt: -1}, &simWriter{failAt: -1}
+			fA, fB := jsonrpc2.HeaderFramer().Writer(wA), jsonrpc2.HeaderFramer().Writer(wB)
+			at := 1 + sched.Draw(2*len(r.msgs))
+			other := r.msgs[sched.Draw(len(r.msgs))]
+			var sentB []mdesc
+			wA.onCall = func(call int) {
+				if call == at {
+					if mb, err := other.build(); err == nil {
+						if _, err := fB.Write(context.Background(), mb); err == nil {
+							sentB = append(sentB, other)
+						}
+					}
+					res.Faults["second-connection-writes-during-a-stream-call"]++
+				}
+			}
+			for i := range r.msgs {
+				msg, _ := r.msgs[i].build()
+				if _, err := fA.Write(context.Background(), msg); err != nil {
+					r.fail("oracle:write-failed", "writing a valid message failed: "+err.Error(), "writer rejected a valid message")
+				}
+			}
+			if r.failure == nil {
+				outA := readBack(&simReader{data: wA.buf.Bytes(), endErr: io.EOF, chunk: seeded()}, len(r.msgs)+1)
+				r.expectPrefix("stream of connection A while connection B wrote during one of its stream calls", outA, r.msgs, len(r.msgs), true)
+			}
+			if r.failure == nil {
+				outB := readBack(&simReader{data: wB.buf.Bytes(), endErr: io.EOF, chunk: seeded()}, len(sentB)+1)
+				r.expectPrefix("stream of connection B", outB, sentB, len(sentB), true)
+			}
 		}
 		// a message that cannot be encoded is refused without writing anything,
 		// so the frames around it still read back exactly
